@@ -3,7 +3,7 @@
    Tables, dispatch bounds and low-end constants come from gen/Tables.v = the current source text of /repo. *)
 From Coq Require Import ZArith.
 Require Import C12.gen.Tables.
-From C12 Require Import PrimeB Model ProofsSweep ProofsTable ProofsTab12 ProofsPrimes16 ProofsNext ProofsFactor.
+From C12 Require Import PrimeB Model ProofsSweep ProofsTable ProofsTab12 ProofsPrimes16 ProofsNext ProofsFactor ProofsDivisors ProofsPower.
 Local Open Scope Z_scope.
 
 Theorem C12_isprime_exact_below_65536 : Isprime_table_stmt.          Proof. exact isprime_table. Qed.
@@ -42,3 +42,9 @@ Theorem C12_set_terminates : Set2_terminates_stmt.                        Proof.
 Print Assumptions C12_set_terminates.
 Theorem C12_factor_divides_prime_when_small_factor : Factor_stmt.         Proof. exact factor_correct. Qed.
 Print Assumptions C12_factor_divides_prime_when_small_factor.
+Theorem C12_divisors_exactly_positive_divisors : Divisors_stmt.            Proof. exact divisors_correct. Qed.
+Print Assumptions C12_divisors_exactly_positive_divisors.
+Theorem C12_isprimepower_sound :
+  forall isprime root, isprime_sound isprime -> root_sound root -> Isprimepower_sound_stmt isprime root.
+Proof. exact isprimepower_sound. Qed.
+Print Assumptions C12_isprimepower_sound.
